@@ -7,6 +7,7 @@ import (
 	"encoding/pem"
 	"fmt"
 	"os"
+	"os/exec"
 	"path/filepath"
 	"sort"
 	"strconv"
@@ -20,6 +21,8 @@ import (
 	"verifharness/gen"
 	"verifharness/model"
 	"verifharness/stats"
+
+	dt "verifharness/dertree"
 )
 
 type c15Input struct {
@@ -375,6 +378,64 @@ func TestC15(t *testing.T) {
 			}
 		}
 		rec.Exhaustive("every corpus certificate x {pem, der, base64} and every corpus CRL (pem) through the CLI", true)
+	}
+	// one certificate of more than 48 KiB (thousands of names): the same result in every input format, file and stdin
+	if shard, _ := stats.Shard(); shard == 0 && len(co.Certs) > 0 {
+		if v, err := gen.ViewCert(co.Certs[0].DER); err == nil {
+			var gns []*dt.Node
+			for i := 0; i < 2600; i++ {
+				gns = append(gns, gen.GNDNS([]byte(fmt.Sprintf("host-%04d.example.com", i))))
+			}
+			v.SetSAN(false, gns...)
+			huge := v.DER()
+			for _, enc := range []string{"pem", "der", "base64", "base64-newline", "base64-wrapped"} {
+				for _, del := range []string{"file", "stdin"} {
+					f := map[string]string{"pem": "pem", "der": "der"}[enc]
+					if f == "" {
+						f = "base64"
+					}
+					c := c15Case{Inputs: []c15Input{{Kind: gen.Cert, DER: huge, Encoding: enc, Delivery: del, Base: "huge-san"}}, Format: f, Output: "default", Filter: &engine.FilterSpec{IncludeSources: []string{"RFC5280"}}}
+					dir, err := os.MkdirTemp("", "verif-c15-")
+					if err != nil {
+						continue
+					}
+					sig, msg := judgeC15(rec, c, cli, dir)
+					os.RemoveAll(dir)
+					rec.Eval()
+					rec.Class("huge_certificate")
+					if msg != "" {
+						if rec.Report("c15", sig, msg, c15Case{Inputs: []c15Input{{Kind: gen.Cert, Encoding: enc, Delivery: del, Base: "huge-san (2600 dNSNames, DER omitted)"}}, Format: f, Output: "default"}) {
+							t.Fatalf("c15 huge certificate as %s via %s: %s: %s", enc, del, sig, msg)
+						}
+					}
+				}
+			}
+		}
+		// many files in one invocation under a small open-file limit: every file gets its result (files are closed as the tool goes)
+		if sh, err := exec.LookPath("sh"); err == nil {
+			dir, err := os.MkdirTemp("", "verif-c15-")
+			if err == nil {
+				var files []string
+				n := 200
+				for i := 0; i < n; i++ {
+					o := co.Certs[i%len(co.Certs)]
+					p := filepath.Join(dir, fmt.Sprintf("f%03d.pem", i))
+					_ = os.WriteFile(p, pem.EncodeToMemory(&pem.Block{Type: "CERTIFICATE", Bytes: o.DER}), 0o644)
+					files = append(files, p)
+				}
+				args := append([]string{"-c", "ulimit -n 48; exec \"$0\" \"$@\"", cli, "-includeNames=e_ca_country_name_missing"}, files...)
+				res := runCLI(sh, nil, dir, nil, args...)
+				got := strings.Count(res.Stdout, "e_ca_country_name_missing")
+				rec.Eval()
+				rec.Class("many_files_low_fd_limit")
+				if res.Exit != 0 || got != n {
+					if rec.Report("c15", "many-files|fd-limit", fmt.Sprintf("%d files in one invocation under `ulimit -n 48`: exit %d, %d result objects; stderr %s", n, res.Exit, got, short(res.Stderr, 200)), c15Case{Format: "pem", Output: "default", BadFlag: "(200 files, ulimit -n 48)"}) {
+						t.Fatalf("c15 many files under a small descriptor limit: exit %d, %d/%d results", res.Exit, got, n)
+					}
+				}
+				os.RemoveAll(dir)
+			}
+		}
 	}
 	rapidRun(t, "invocations", perShard(stats.Scale(420, 40000)), func(rt *rapid.T) {
 		dir, err := os.MkdirTemp("", "verif-c15-")
